@@ -345,7 +345,8 @@ def document_single_file(file, root, settings: Settings):
         # Path to file relative to input_path
         header_name = os.path.relpath(file, root)
     else:
-        header_name = file
+        # A single input file is named after itself, not after where it happens to be stored
+        header_name = os.path.basename(file)
 
     if prefix is not None:
         # If current file dir is same as root dir, replace "." with prefix
